@@ -145,6 +145,12 @@ class SubChannel:
         pass
 
     @m.input()
+    def wormhole_closed(self):
+        # Dilation has stopped for good: whatever state we are in, this
+        # subchannel is over
+        pass
+
+    @m.input()
     def local_data(self, data):
         pass
 
@@ -242,6 +248,21 @@ class SubChannel:
     # we won't ever see an OPEN, since L4 will log+ignore those for us
     closing.upon(local_data, enter=closing, outputs=[error_closed_write])
     closing.upon(local_close, enter=closing, outputs=[error_closed_close])
+    # the wormhole is closing: end the subchannel from wherever it is (there
+    # is nobody left to send a CLOSE to)
+    unconnected.upon(wormhole_closed, enter=closed, outputs=[close_subchannel])
+    open_half.upon(wormhole_closed, enter=closed, outputs=[close_subchannel,
+                                                            signal_readConnectionLost,
+                                                            signal_writeConnectionLost])
+    read_closed.upon(wormhole_closed, enter=closed, outputs=[close_subchannel,
+                                                              signal_writeConnectionLost])
+    write_closed.upon(wormhole_closed, enter=closed, outputs=[close_subchannel,
+                                                               signal_readConnectionLost])
+    open_full.upon(wormhole_closed, enter=closed, outputs=[close_subchannel,
+                                                            signal_connectionLost])
+    closing.upon(wormhole_closed, enter=closed, outputs=[close_subchannel,
+                                                          signal_connectionLost])
+    closed.upon(wormhole_closed, enter=closed, outputs=[])
     # the CLOSED state shouldn't ever see messages, since we'll be deleted
     # (but a local user should be able to call "close" without having
     # to know what state we're in)
